@@ -358,6 +358,9 @@ def run(case):
             nt = f"{case['cls']}|{case['origin']}|{case['bi']}|{muts}"
         elif exc is not None and not need:
             tags["other_exception_on_undocumented_violation(allowed)"] += 1
+        elif exc is not None and any(not required(case["cls"], m_) for m_ in muts):
+            # a pair one of whose violations documents no ValueError (k = 1.5, an infinite weight): its exception may come first
+            tags["other_exception_on_undocumented_violation(allowed)"] += 1
         elif exc is not None:
             viol.append({"kind": "wrong_exception_type", "mut": muts, "msg": f"{ctx}: raised {exc[0]}: {exc[1]} in {phase} instead of ValueError"})
         elif solved and muts == ["tolerance_nan"] and not _solver_was_built(m):
